@@ -35,6 +35,13 @@ def rejections(model, scope):
                         not h.name.startswith('compose') and not h.name.startswith('_compose') and h.name not in ('__init__', '__attrs_post_init__'):
                     selected[id(h)] = h
                     work.append(h)
+    # validators of attrs fields (``@field.validator``) run on every object the parser constructs: what they refuse, the parser refuses
+    validators = {}
+    for f in in_scope:
+        for d in f.node.decorator_list:
+            if isinstance(d, ast.Attribute) and d.attr == 'validator' and isinstance(d.value, ast.Name) and f.cls is not None:
+                validators[id(f)] = d.value.id
+                selected[id(f)] = f
     for f in in_scope:
         if id(f) not in selected:
             continue
@@ -69,6 +76,9 @@ def rejections(model, scope):
                                     break
                 p = q
             if handler:
+                continue
+            if id(f) in validators:
+                out.setdefault(owner_construct(f), []).append(('%s[@%s]' % (exc, validators[id(f)]), n))
                 continue
             binds = loop_bindings(model, f, n, parents) if cond is not None else [None]
             for bind in binds:
